@@ -48,14 +48,16 @@ def base(salt, kind, a, b, c, d, e):
 
 
 class Dist(DistributionFunction):
-    def __init__(self, n, t):
+    def __init__(self, n, t, tag=None, log=None):
         super().__init__()
-        self.n, self.t = n, t
+        self.n, self.t, self.tag, self.log = n, t, tag, log
 
     def density(self, x, y, z):
         return self.n
 
     def effective_temperature(self, x, y, z):
+        if self.log is not None and self.tag is not None:
+            self.log["tsamp"].append(list(self.tag))      # which ion species had its temperature sampled
         return self.t
 
     def bulk_velocity(self, x, y, z):
@@ -153,10 +155,10 @@ def make_shape(log):
     return RecordingShape
 
 
-def make_plasma(ne, te, comp):
+def make_plasma(ne, te, comp, log=None):
     pl = Plasma()
     pl.electron_distribution = Dist(ne, te)
-    pl.composition.set([Species(ELEMS[e], c, Dist(n, t)) for (e, c, n, t) in comp])
+    pl.composition.set([Species(ELEMS[e], c, Dist(n, t, (e, c), log)) for (e, c, n, t) in comp])
     return pl
 
 
@@ -165,14 +167,14 @@ LINE_CLASSES = {1: ExcitationLine, 2: RecombinationLine, 3: ThermalCXLine}
 
 
 def new_log():
-    return {"calls": [], "evals": [], "target": [], "radiance": [], "gaunt": []}
+    return {"calls": [], "evals": [], "target": [], "radiance": [], "gaunt": [], "tsamp": []}
 
 
 def run_line(case, lineshape=None, window=(400.0, 600.0, 4)):
     """case: kind, cfg, line=(e, c, t), ne, te, comp=[(e, c, n, t)...].  Returns the observations."""
     log = new_log()
     e, c, t = case["line"]
-    pl = make_plasma(case["ne"], case["te"], case["comp"])
+    pl = make_plasma(case["ne"], case["te"], case["comp"], log if lineshape is None else None)
     ad = StubData(case["cfg"], log)
     pl.atomic_data = ad
     model = LINE_CLASSES[case["kind"]](Line(ELEMS[e], c, TRANS[t]), plasma=pl, atomic_data=ad,
